@@ -289,8 +289,6 @@ def annotate_file(src, fc, relfile, uid_start=0):
             madd(toks[last].b, ')')
         if u.sig:
             madd(toks[it.body_open].a, '\n' + u.sig + '\n')
-        if VACUITY and not u_assumed:
-            madd(toks[it.body_open].b, '\nproof { assert(false); } // vacuity probe\n')
         loops = rstok.body_loops(toks, it.body_open, it.body_close)
         blocks = rstok.body_blocks(toks, it.body_open, it.body_close)
         for k, text in (u.loops.items() if level < 2 else []):
@@ -346,6 +344,9 @@ def annotate_file(src, fc, relfile, uid_start=0):
                 madd(toks[st[n - 1][0]].a, text + '\n')
             else:
                 madd(toks[st[n - 1][1]].b, '\n' + text + '\n')
+        if VACUITY and not u_assumed:
+            # after the entry hints (a `broadcast use` must stay first in its block)
+            madd(toks[it.body_open].b, '\nproof { assert(false); } // vacuity probe\n')
         return my
 
     for u in fc['units']:
